@@ -124,7 +124,7 @@ EXTRA = {
  "C18": " Also: the reader argument of io.ReadFull counts as written (stateful readers), and an interface method implemented outside the module invoked on a global-derived object is reported unless the callee is in the frozen read-only table.",
  "C19": " Also: a builder passes memory it did not allocate to no module function with a non-empty mod-set (the container is only extended).",
  "C20": " Also: header bookkeeping fields are stored on every path before they are read (no value left by an earlier Decode/Encode reaches the output). Protect builds the new payload list from nil (no append into the old list's storage).",
- "C02": " The crash-freedom proof covers every function reachable from DecodeDecrypt (header parser, outer chain walker and every payload decoder run before the checksum is verified).",
+ "C02": " The crash-freedom proof covers every function reachable from DecodeDecrypt (header parser, outer chain walker and every payload decoder run before the checksum is verified). A datagram that ends behind a header announcing an Encrypted payload is refused (no success return of DecodeDecrypt reachable with an empty payload list and NextPayload = SK).",
  "C09": " Also: nothing outside init writes memory reachable from the package-level group descriptors (alias analysis; math/big receivers count as written).",
  "C13": " Also: no error exit on the decode path depends on a payload type code (forward dependence from header octet 16, octet 0 of the generic header, the walker's first-type argument and the NextPayload fields).",
 }
@@ -160,7 +160,7 @@ def main():
                      "kind_free_text": "repository-specific static analyser over go/types + go/ssa (x/tools v0.29.0): wrap-aware linear-form bounds prover, effect/alias analysis, ordering/typestate rules, wire-slot tables, registry/constant tables"}],
         "checks": checks,
         "not_applicable": [{"property_id": p, "reason": NA.get(p, REASON_WIP)} for p in props if p not in CHECKS],
-        "notes": "Static-analysis family only; nothing executes code of /repo (the thorough tier runs the Go compiler with a diagnostic flag and re-runs the analyser on scratch copies). run.sh first self-tests the engines on /verif/fixtures (exit 2 on failure). known_findings.json: 13 fixed entries, 1 known entry (C15, D15). See DESIGN.md, in particular section 8 (as built).",
+        "notes": "Static-analysis family only; nothing executes code of /repo (the thorough tier runs the Go compiler with a diagnostic flag and re-runs the analyser on scratch copies). run.sh first self-tests the engines on /verif/fixtures (exit 2 on failure). known_findings.json: 14 fixed entries, 1 known entry (C15, D15). See DESIGN.md, in particular section 8 (as built).",
     }
     json.dump(m, open(os.path.join(HERE, 'MANIFEST.json'), 'w'), indent=1)
     print("claimed:", sorted(CHECKS))
